@@ -216,7 +216,7 @@ def gen(ref, tier):
         segs = s.split("/")
         for i, (k, pat) in enumerate(ref.templates[typ]):
             if pat is None:
-                for nm in [n for n in SPECIAL_NAMES if not n.startswith("~")] + ["ab ", " ab", "a b", " "]:      # (a leading '~': known finding of C02)
+                for nm in [n for n in SPECIAL_NAMES if not n.startswith("~")] + [" "]:      # (a leading '~': known finding of C02)
                     e = "/".join(segs[:i] + [nm] + segs[i + 1:])
                     if ref.natural(e)[0]:
                         yield [e, None]
